@@ -7,7 +7,7 @@ PROPS["C02"] = dict(
          "Gosched calls; plus a hammer unit: 2..8 threads race Create on one fresh key (or CasByVersion on one version) behind a spin barrier "
          "for 200..1500(4000) rounds, with a context whose Err() yields the processor in half of the cases, winners counted directly; and a squeeze unit that forces pairs of in-memory operations (Create/Create, Create/Put, CAS/CAS, CAS/Put, CAS/Delete) "
          "into the order 'A's first critical section, all of B, A's next critical section' through the storage mutex (overlay accessor, FIFO hand-over of a "
-         "starving sync.Mutex). Multi-key calls are split into per-key sub-operations sharing the call/return stamps. non-trivial = the recorded history "
+         "starving sync.Mutex). A quarter of the PutMany batches carry per-record expiry flags and may repeat a key (the last record of a key is its per-key effect). Multi-key calls are split into per-key sub-operations sharing the call/return stamps. non-trivial = the recorded history "
          "has two overlapping operations of different threads on one key of which at least one is a write; distinct = hash of (programs, "
          "call/return stamp pattern observed)",
     assumptions=["schedules are sampled by the Go runtime, not enumerated; the deciding step is the checker on each recorded history",
